@@ -522,3 +522,27 @@ def _same_float_set(r, v):
 
 
 leaf_contract('set2-float', _set_of_floats, _same_float_set)
+
+
+# ---- C14 on the handshake path: the client hello is decoded from an unauthenticated peer
+@contract('connection.HandshakeClientHelloMessage.deserialize', props=['C14', 'C11'], variant='hostile-bytes')
+class _:
+    """ARBITRARY bytes: the two fields are whatever the generic decoder returns (an int, bytes, something else - its own contract);
+    the message decoder stays inside the buffer, allocates nothing beyond the size of the input and lets only ordinary exceptions
+    escape (the key loader rejects anything that is not a DER key: assumed library behaviour)"""
+    def setup(E):
+        s = hostile_setup(E)
+        E.ghost('pos_entry', S.term(s.pos, 'int'))
+        return dict(self=E.obj('connection.HandshakeClientHelloMessage', tag='self'), stream=s)
+    hooks = {'model:serializable.deserialize_value': dv_model}
+    may_raise = ['Exception']
+    ensures = {
+        'position-moves-forward-inside-the-buffer': lambda stream, ghost: S.bool(z3.And(
+            S.term(stream.pos, 'int') >= ghost.pos_entry, S.term(stream.pos, 'int') <= ops.blen(S.term(stream.buf)))),
+        'allocations-bounded-by-the-input': lambda stream, events: allocations_bounded(stream, events),
+    }
+    ensures_exc = {
+        'position-stays-inside-the-buffer': lambda stream, ghost: S.bool(z3.And(
+            S.term(stream.pos, 'int') >= ghost.pos_entry, S.term(stream.pos, 'int') <= ops.blen(S.term(stream.buf)))),
+        'allocations-bounded-by-the-input': lambda stream, events: allocations_bounded(stream, events),
+    }
